@@ -21,15 +21,15 @@ type S1 struct {
 
 // Sch is a generated schema: the real gozod schema plus what the Lean side needs to know about it.
 type Sch struct {
-	Kind    string // leaf | slice | array | tuple | map | record | set | object | struct | union | xor | inter | du | lazy
-	Name    string // Go expression, for replays
-	Z       core.ZodSchema // nil when the member is not a core.ZodSchema (then Raw / RawParse)
-	Raw      any                        // what the container constructor is given when Z == nil
-	RawParse func(any) (any, error)     // the member's own Parse when Z == nil
-	Exotic   string                     // member kind other than a built-in schema type (members.go), "" = built-in
-	GoT     string // static Go type of its valid instances: str | int | mapSA | slAny | any ("" = mixed)
-	Members []*Sch
-	Mods    [3]bool // optional nilable nonOptional (of the container itself)
+	Kind     string                 // leaf | slice | array | tuple | map | record | set | object | struct | union | xor | inter | du | lazy
+	Name     string                 // Go expression, for replays
+	Z        core.ZodSchema         // nil when the member is not a core.ZodSchema (then Raw / RawParse)
+	Raw      any                    // what the container constructor is given when Z == nil
+	RawParse func(any) (any, error) // the member's own Parse when Z == nil
+	Exotic   string                 // member kind other than a built-in schema type (members.go), "" = built-in
+	GoT      string                 // static Go type of its valid instances: str | int | mapSA | slAny | any ("" = mixed)
+	Members  []*Sch
+	Mods     [3]bool // optional nilable nonOptional (of the container itself)
 
 	// node parameters
 	ElemT    string   // slice/set element type T: any | str | int | mapSA
@@ -42,17 +42,19 @@ type Sch struct {
 	EnumKeys []string // record: exhaustive enum keys (key member is an Enum)
 	Loose    bool
 	Partial  bool
-	Fields   []string // object/struct: field names, Members[i] is the schema of Fields[i]
-	Mode     string   // object: strip | strict | passthrough
-	Catchall int      // object: index of catchall member, -1 = none
-	PartEx   []string // object: partial exceptions (nil with Partial = all optional)
-	PtrC     bool     // struct: pointer constraint
-	Disc     string   // du: discriminator field
-	DiscMap  map[string]int // du: AtomKey(discriminator value) -> member index
+	Fields   []string       // object/struct: field names, Members[i] is the schema of Fields[i]
+	Mode     string         // object: strip | strict | passthrough
+	Catchall int            // object: index of catchall member, -1 = none
+	PartEx   []string       // object: partial exceptions (nil with Partial = all optional)
+	PtrC     bool           // struct: pointer constraint
+	Disc     string         // du: discriminator field
+	DiscMap  map[string]int // du: AtomKey(discriminator value) -> member index, read back from the schema (DiscriminatorMap())
+	DiscVals [][]any        // du: per option, the discriminator values it DECLARES (known from how the option was generated)
+	Broken   bool           // du: the constructor is expected to record a construction error (a value declared twice / none declared)
 
 	// leaves
-	Valids     []any // values the leaf accepts
-	InvalidsT  []any // values of the leaf's own Go type it rejects
+	Valids      []any // values the leaf accepts
+	InvalidsT   []any // values of the leaf's own Go type it rejects
 	InvalidsAny []any // values of other types it rejects
 }
 
@@ -480,35 +482,7 @@ func GenKind(r *hx.Rng, depth int, kind string) *Sch {
 		}
 		s.Name = fmt.Sprintf("Intersection(%s, %s)%s", l.Name, rr.Name, modsSuffix(s.Mods))
 	case "du":
-		s.Disc = "t"
-		s.DiscMap = map[string]int{}
-		tags := []string{"p", "q", "r"}
-		n := 1 + r.Intn(3)
-		for i := range n {
-			o := &Sch{Kind: "object", Rest: -1, KeyM: -1, ValM: -1, Catchall: -1}
-			genObject(r, d, o, &objOpts{fields: []string{"a", "b"}[:1+r.Intn(2)], disc: tags[i]})
-			s.Members = append(s.Members, o)
-		}
-		s.GoT = "mapSA"
-		s.Mods = pickMods(r)
-		z := types.DiscriminatedUnion("t", zs(s.Members))
-		// the dispatch table is read back from the schema (exported accessor)
-		for dv, target := range z.DiscriminatorMap() {
-			for i, m := range s.Members {
-				if m.Z == target {
-					s.DiscMap[AtomKey(dv)] = i
-				}
-			}
-		}
-		switch {
-		case s.Mods[0]:
-			s.Z = z.Optional()
-		case s.Mods[1]:
-			s.Z = z.Nilable()
-		default:
-			s.Z = z
-		}
-		s.Name = fmt.Sprintf("DiscriminatedUnion(\"t\", [%s])%s", names(s.Members), modsSuffix(s.Mods))
+		genDU(r, d, s, false)
 	case "lazy":
 		t := GenMember(r, d, "", false)
 		s.Members = []*Sch{t}
@@ -559,9 +533,11 @@ func sliceZ[T any](e *Sch, s *Sch) core.ZodSchema {
 }
 
 type objOpts struct {
-	fields []string
-	mode   string
-	disc   string // literal discriminator value for field "t"
+	fields  []string
+	mode    string
+	disc    string // literal discriminator value for field "t"
+	discM   *Sch   // discriminator member for field "t" (overrides disc)
+	nofield bool   // du option without the discriminator field (discM == nil, disc == "")
 }
 
 func genObject(r *hx.Rng, d int, s *Sch, o *objOpts) {
@@ -570,8 +546,11 @@ func genObject(r *hx.Rng, d int, s *Sch, o *objOpts) {
 		fields = o.fields
 	}
 	shape := core.ObjectSchema{}
-	if o != nil && o.disc != "" {
-		m := leaf(fmt.Sprintf("Literal(%q)", o.disc), gozod.Literal(o.disc), "str", []any{o.disc}, []any{"zz"}, []any{1})
+	if o != nil && (o.disc != "" || o.discM != nil) {
+		m := o.discM
+		if m == nil {
+			m = leaf(fmt.Sprintf("Literal(%q)", o.disc), gozod.Literal(o.disc), "str", []any{o.disc}, []any{"zz"}, []any{1})
+		}
 		s.Fields = append(s.Fields, "t")
 		s.Members = append(s.Members, m)
 		shape["t"] = m.Z
@@ -717,12 +696,17 @@ func (s *Sch) NodeTok(base int) string {
 	case "inter":
 		return fmt.Sprintf("inter %s %d %d", m, base, base+1)
 	case "du":
-		var dm []string
-		for k, i := range s.DiscMap {
-			dm = append(dm, fmt.Sprintf("%d %d", Intern(k), base+i))
+		// per option: member id and the discriminator values it declares; the model builds the index itself
+		os := make([]string, len(s.Members))
+		for i := range s.Members {
+			vs := make([]string, len(s.DiscVals[i]))
+			for j, v := range s.DiscVals[i] {
+				vs[j] = strconv.Itoa(KeyID(v))
+			}
+			sortStrings(vs) // Enum values come out of a Go map: any order
+			os[i] = fmt.Sprintf("%d %d%s", base+i, len(vs), joinPrefixed(vs))
 		}
-		sortStrings(dm)
-		return fmt.Sprintf("du %s %d %d%s %s", m, KeyID(s.Disc), len(dm), joinPrefixed(dm), ids(0, len(s.Members)))
+		return fmt.Sprintf("du %s %d %d%s", m, KeyID(s.Disc), len(os), joinPrefixed(os))
 	case "lazy":
 		return fmt.Sprintf("lazy %s %s %d", m, b01(lazyDirect(s.Members[0].Arg())), base)
 	}
